@@ -33,6 +33,10 @@ too: sessions are created with ``autobegin=False`` at random and a ``commit_set`
 commits and then sets an attribute outside any transaction (InvalidRequestError from
 inside the change event; the intended model is then left unchanged, the program calls
 ``begin()`` and goes on), and a ``set`` listener rejects values starting with "bad".
+Session event listeners that MODIFY the instance they are given (before_attach, after_attach,
+detached_to_persistent, transient_to_pending write an audit ``stamp``) are installed at
+random, and an ``attach_clean`` step attaches a detached *unmodified* object: the listener's change must be
+flushed although nothing else pins the object.
 Additional oracles: after every DROP + gc no state in ``identity_map._modified`` has a
 dead object; an AssertionError (or any exception) that only appears with reference drops
 is a violation (``exception-only-with-reference-drops``).
@@ -67,7 +71,8 @@ META = {
                 "detached_modified_added", "pending_dropped", "deleted_dropped",
                 "partial_expire_on_dirty", "partial_refresh_on_dirty", "orm_update_sync_on_dirty", "touched_dirty_then_dropped",
                 "change_event_raised_no_txn", "change_event_raised_listener", "raised_then_dropped", "modified_set_checks",
-                "autobegin_off_programs", "server_generated_expired"],
+                "autobegin_off_programs", "server_generated_expired",
+                "listener_modified_instance", "listener_modified_then_dropped", "clean_detached_attached"],
     "assumptions": ["gc.collect() collects every unreachable object (no resurrecting finalizers in the mapped classes)"],
 }
 
@@ -85,6 +90,8 @@ class App:
         # intended model (plain data)
         self.p = {}      # n -> name
         self.note = {}   # n -> note (written by ORM-enabled UPDATE only)
+        self.stamp = {}  # n -> stamp (written only by session event listeners that modify the instance they are given)
+        self.stamped_dirty = set()
         self.touched = set()   # dirty tags that were partially expired / refreshed / synchronised
         self.raised = set()    # tags whose change event raised midway
         self.raised_ever = set()
@@ -199,6 +206,21 @@ class App:
         else:
             del self.c[tag]
 
+    def do_attach_clean(self, n, how):
+        """a detached, *unmodified* P is attached: session.add(), or save-update cascade from a child"""
+        s0 = self.rig.orm.Session(self.rig.engine)
+        o = s0.scalars(self.select(self.P).where(self.P.n == n)).one()
+        s0.close()
+        if self.s.identity_map.get(self.inspect(o).key) is not None:
+            self.refs[("p", n)] = self.s.identity_map.get(self.inspect(o).key)
+            return
+        self.ctx.count("clean_detached_attached")
+        if how == "add":
+            self.s.add(o)
+        else:
+            self.s.add_all([o])
+        self.refs[("p", n)] = o
+
     def do_detached_mod(self, kind, tag, value):
         """load in another session, close it, modify while detached, add to the session"""
         cls, attr = (self.P, "n") if kind == "p" else (self.C, "k")
@@ -298,12 +320,13 @@ class App:
     def do_begin_nested(self):
         self.nested = self.s.begin_nested()      # flushes
         self.after_flush()
-        self.saved = ({k: v for k, v in self.p.items()}, {k: list(v) for k, v in self.c.items()}, dict(self.note))
+        self.saved = ({k: v for k, v in self.p.items()}, {k: list(v) for k, v in self.c.items()}, dict(self.note), dict(self.stamp))
 
     def do_rollback_nested(self):
         self.nested.rollback()
         self.nested = None
-        self.p, self.c, self.note = self.saved
+        self.p, self.c, self.note, self.stamp = self.saved
+        self.stamped_dirty.clear()
         self.saved = None
         self.touched.clear()
         self.dirty.clear()
@@ -321,6 +344,7 @@ class App:
         self.compare("flush", self.rig.truth)
 
     def after_flush(self):
+        self.stamped_dirty.clear()
         self.touched.clear()
         self.dirty.clear()
         self.pending.clear()
@@ -336,6 +360,7 @@ class App:
             self.ctx.count("deleted_dropped", len(held & self.marked_deleted))
         self.ctx.count("touched_dirty_then_dropped", len(held & self.touched & self.dirty))
         self.ctx.count("raised_then_dropped", len(held & self.raised))
+        self.ctx.count("listener_modified_then_dropped", len(held & self.stamped_dirty & self.dirty))
         self.raised -= held
         for key in self.refs:
             self.probes.append((weakref.ref(self.refs[key]), key in self.dirty))
@@ -379,11 +404,16 @@ class App:
         got_p = {n: name for n, name in reader("SELECT n, name FROM p")}
         got_c = {k: [v, pn] for k, v, pn in reader(
             "SELECT c.k, c.v, p.n FROM c LEFT JOIN p ON p.id = c.p_id")}
+        got_stamp = {n: st for n, st in reader("SELECT n, stamp FROM p") if st is not None}
+        want_stamp = {n: v for n, v in self.stamp.items() if n in self.p}
         got_note = {n: note for n, note in reader("SELECT n, note FROM p") if note is not None}
         want_note = {n: v for n, v in self.note.items() if n in self.p}
-        if got_p == self.p and got_c == self.c and got_note == want_note:
+        if got_p == self.p and got_c == self.c and got_note == want_note and got_stamp == want_stamp:
             return True
         probs = []
+        for n in set(got_stamp) | set(want_stamp):
+            if got_stamp.get(n) != want_stamp.get(n):
+                probs.append(("p-listener-change", f"P n={n}: stamp db {got_stamp.get(n)!r} intended {want_stamp.get(n)!r} (set by an event listener)"))
         for n in set(got_note) | set(want_note):
             if got_note.get(n) != want_note.get(n):
                 probs.append(("p-note", f"P n={n}: note db {got_note.get(n)!r} intended {want_note.get(n)!r}"))
@@ -430,6 +460,9 @@ def zoo_pc_ext(sa, orm, reg, cascade):
 
     cls = R.zoo_pc(sa, orm, reg, cascade=cascade)
     P = cls["P"]
+    stamp = sa.Column("stamp", sa.String)
+    P.__table__.append_column(stamp)
+    P.__mapper__.add_property("stamp", stamp)
     note = sa.Column("note", sa.String)
     sv = sa.Column("sv", sa.Integer, server_default="0", server_onupdate=sa.FetchedValue())
     P.__table__.append_column(note)
@@ -477,7 +510,7 @@ def gen_program(rng, length, variant):
         tries += 1
         kind = rng.choice(["load", "set_name", "set_name", "set_v", "set_v", "new_p", "new_c", "new_c", "move_c",
                            "remove_c", "delete", "detached_mod", "merge_p", "flush", "begin_nested", "rollback_nested",
-                           "expire_attrs", "refresh_attrs", "orm_update", "commit_set", "bad_set", "touch_last"])
+                           "expire_attrs", "refresh_attrs", "orm_update", "commit_set", "bad_set", "touch_last", "attach_clean", "attach_clean"])
         # rows that were persistent when the program started and are still there
         live_p = [n for n in (1, 2, 3) if n in p]
         live_c = [k for k in ("k1", "k2", "k3", "k4") if k in c]
@@ -550,13 +583,20 @@ def gen_program(rng, length, variant):
                 prog.append(("delete", "c", k))
         elif kind == "detached_mod" and nested != 1:
             # only rows that exist committed and are untouched so far in this program
-            touched = {s[1] for s in prog if s[0] in ("set_name", "new_p", "merge_p", "orm_update", "commit_set", "bad_set")} | \
+            touched = {s[1] for s in prog if s[0] in ("set_name", "new_p", "merge_p", "orm_update", "commit_set", "bad_set", "attach_clean")} | \
                       {s[2] for s in prog if s[0] in ("expire_attrs", "refresh_attrs")} | \
                       {s[2] for s in prog if s[0] in ("load", "delete", "detached_mod")} | \
                       {s[2] for s in prog if s[0] == "move_c"} | {s[3] for s in prog if s[0] == "new_c"}
             cand = [n for n in (1, 2, 3) if n in p and n not in touched]
             if cand:
                 prog.append(("detached_mod", "p", rng.choice(cand), u("dname")))
+        elif kind == "attach_clean" and nested != 1:
+            touched = {s[1] for s in prog if s[0] in ("set_name", "new_p", "merge_p", "orm_update", "commit_set", "bad_set", "attach_clean")} | \
+                      {s[2] for s in prog if s[0] in ("load", "delete", "detached_mod", "expire_attrs", "refresh_attrs")} | \
+                      {s[2] for s in prog if s[0] == "move_c"} | {s[3] for s in prog if s[0] == "new_c"}
+            cand = [n for n in (1, 2, 3) if n in p and n not in touched]
+            if cand:
+                prog.append(("attach_clean", rng.choice(cand), rng.choice(["add", "add_all"])))
         elif kind == "merge_p":
             cand = [n for n in (1, 2, 3) if n in p]
             if cand:
@@ -608,7 +648,38 @@ def placements(prog, rng):
     yield "some", {i for i in range(n) if rng.random() < 0.4}
 
 
-def run_program(ctx, rig, prog, placement, where, variant, autoflush, expire_on_commit, autobegin=True):
+# (loaded_as_persistent is left out: it fires inside the load, before the loaded state is committed, so a value
+# assigned there becomes part of the *loaded* state by design - like InstanceEvents.load)
+LISTENER_EVENTS = ["before_attach", "after_attach", "detached_to_persistent", "transient_to_pending"]
+
+
+def install_listeners(app, s, events):
+    """session event listeners that MODIFY the instance they are given (an audit stamp).  The listener is part of
+    the application: it records the value it assigned in the intended model.  (pending_to_persistent fires inside
+    the flush: its changes belong to the following flush and are left out; persistent_to_detached hands the
+    object to another session - see selftest/C48/proposed/.)"""
+    import sqlalchemy as sa
+
+    P = app.P
+    for ev in events:
+        val = "by-" + ev
+
+        def fn(session, instance, val=val):
+            if type(instance) is not P:
+                return
+            n = instance.__dict__.get("n")
+            if n is None or instance.__dict__.get("stamp") == val:
+                return
+            instance.stamp = val
+            app.stamp[n] = val
+            app.dirty.add(("p", n))
+            app.stamped_dirty.add(("p", n))
+            app.ctx.count("listener_modified_instance")
+
+        sa.event.listen(s, ev, fn)
+
+
+def run_program(ctx, rig, prog, placement, where, variant, autoflush, expire_on_commit, autobegin=True, listeners=()):
     rig.wipe()
     s = rig.session(autoflush=autoflush, expire_on_commit=expire_on_commit, autobegin=autobegin)
     if not autobegin:
@@ -617,7 +688,9 @@ def run_program(ctx, rig, prog, placement, where, variant, autoflush, expire_on_
             ctx.count("autobegin_off_programs")
     app = App(ctx, rig, s, variant)
     app.p, app.c = seed(rig)
-    app.program, app.placement = [list(x) for x in prog], placement
+    app.program, app.placement = [list(x) for x in prog] + [["listeners"] + list(listeners)], placement
+    if listeners:
+        install_listeners(app, s, listeners)
     try:
         try:
             for i, st in enumerate(prog):
@@ -732,8 +805,9 @@ def run(ctx):
                 autoflush = rng.random() < 0.5
                 eoc = rng.random() < 0.7
                 autobegin = rng.random() < 0.6
+                listeners = [ev for ev in LISTENER_EVENTS if rng.random() < 0.25] if rng.random() < 0.6 else []
                 for placement, where in placements(prog, rng):
-                    app = run_program(ctx, rig, prog, placement, where, variant, autoflush, eoc, autobegin)
+                    app = run_program(ctx, rig, prog, placement, where, variant, autoflush, eoc, autobegin, listeners)
                     if sampled < 3 and app.lost_dirty and placement == "all":
                         ctx.sample({"variant": variant, "program": app.program, "placement": placement})
                         sampled += 1
